@@ -72,6 +72,8 @@ def jobs(tier, seed):
                             continue
                         if tier == "quick" and indels and k >= 1 and perm != perms[0] and perm != perms[-1]:
                             continue   # quick tier: with indels and errors only the given and the reversed order
+                        if tier != "quick" and indels and k >= 2 and perm != perms[0] and perm != perms[-1]:
+                            continue   # thorough tier: two errors with indels (3/4 of the solver time) only for the given and the reversed order
                         maxlen = max(len(s) for s in seqs) + (k if indels else 0)
                         top = maxlen + (1 if tier == "quick" else 2)
                         for n in range(0, top + 1):
